@@ -211,7 +211,7 @@ func Exec(st Step, pool []*modeling.Mesh) (res modeling.Mesh, hasRes bool, ok bo
 	case "SmoothNormals":
 		res = meshops.SmoothNormals(src(0))
 	case "Laplacian":
-		res = meshops.LaplacianSmooth(src(0), project.AttrName(st.i("id")), st.i("iters"), 1.0)
+		res = meshops.LaplacianSmooth(src(0), project.AttrName(st.i("id")), st.i("iters"), float64(st.i("lam2"))/2)
 	case "Export":
 		hasRes = false
 		export(src(0), st.str("fmt"))
